@@ -13,7 +13,10 @@ scheduled the remaining `AddCollectedEvent` results of the tick are skipped
 (`foldl_applyRes_rerun`; the reducer before that repair could re-issue the same slot twice,
 see `WfProofs/EngineUnrepaired.lean` and `WfProps/C01.lean`).
 
-Part 2 (runner): `RunInv`, preserved by every action.
+Part 2 (runner): `RunInv`, preserved by every action.  Besides the inclusion it records where a
+`stepResult` tick can be — only in the buffer, alone — and that the slot it reports on is a configured
+step's and still in progress: with the worker-slot invariant that is all `reduce` needs to raise nothing
+(`WfProofs/EngineNoCrash.lean`, `WfProofs/RunnerNoCrash.lean`, C04).
 -/
 set_option linter.unusedSimpArgs false
 set_option linter.unusedVariables false
